@@ -15,7 +15,7 @@ RULE = ('(layout: the clause p(X,Y) :- q(X,_), r(_,Y) with its two anonymous var
         'argument of a rule, and as a body-goal argument, each batch also compiled from a file holding the same text (identical code required), then (1) read back through a query: structure equals the '
         'literal\'s term and to_python equals the reference value (name / int / list / (name,[args]) / None) - every returned value is then changed in place by the caller (all lists inside appended to), which no later conversion on the same engine may show; (every check also on an engine that was used and cleared before the program was loaded) (2) the '
         'same term built with atom/functor/listpair/makelist through the API is used as query argument: exactly one '
-        'answer, and the compiled literal read back unifies with it; (3) atoms: yp.atom(n) is yp.atom(n); atoms and whole terms built on two '
+        'answer, and the compiled literal read back unifies with it; (3) atoms: yp.atom(n) is yp.atom(n), also when the atom reaches the caller through findall/3, once/1, call/2 or a dynamic fact; atoms and whole terms built on two '
         'engines unify with each other and with each other\'s compiled literals and dynamic facts, also on an engine that was cleared before loading; (4) every _ is a distinct variable. states = distinct (literal class, '
         'outcome) observations; transitions = queries; non-trivial = the literal needs quoting, is a list or contains a variable')
 ASSUMPTIONS = ['the generator starts from a TERM, prints it in the documented syntax (\' written as \\\', no other '
@@ -299,6 +299,24 @@ def check_literal(yp, yp2, j, cls, term, text):
         for _ in yp.query('l%d' % j, [x]):
             if impl.engine.get_value(x) is not yp.atom(nm):
                 return ('violation', 'compiled-atom-is-another-object', 'the compiled atom %r is not the engine\'s interned atom object' % nm, None, steps)
+        # ... by whatever route the atom reaches the caller: collected by findall, through once/1 and call/2,
+        # stored as a dynamic fact and read back - atoms of the same name are one object per engine
+        goal = yp.functor('l%d' % j, [x])
+        bag = yp.variable()
+        routes = [('findall/3', 'findall', [x, goal, bag], lambda: impl.engine.get_value(bag)._args[0] if isinstance(impl.engine.get_value(bag), impl.Functor) else None),
+                  ('once/1', 'once', [goal], lambda: x), ('call/2', 'call', [yp.atom('l%d' % j), x], lambda: x)]
+        for rname, qn, qargs, pick in routes:
+            for _ in yp.query(qn, qargs):
+                got = impl.engine.get_value(pick())
+                steps += 1
+                if got is not yp.atom(nm):
+                    return ('violation', 'atom-through-builtin-is-another-object', 'the atom %r of the fact l(%s), reaching the caller through %s, is not the engine\'s atom object yp.atom(%r) (it is %r)' % (nm, lit, rname, nm, got), None, steps)
+        yp.assert_fact(yp.atom('kept$'), [yp.atom(nm)])
+        for _ in yp.query('kept$', [x]):
+            if impl.engine.get_value(x) is not yp.atom(nm):
+                return ('violation', 'atom-through-builtin-is-another-object', 'the atom %r stored as a dynamic fact and read back is not yp.atom(%r)' % (nm, nm), None, steps)
+        for _ in yp.query('retractall', [yp.functor('kept$', [yp.variable()])]):
+            pass
     nontrivial = lit.startswith("'") or term[0] == 'f' or bool(term_vars(term))
     return ('ok', None, None, (cls, want if len(repr(want)) < 120 else 'big'), steps, nontrivial)
 
